@@ -162,6 +162,14 @@ Theorem C16_truncate_marks : forall c hto p k,
 Proof. exact (fun c hto p k => conj (truncate_marks_newest_slot c hto p k) (mark_end_flags hto)). Qed.
 Print Assumptions C16_truncate_marks.
 
+(* the reward of the scripted GoalEnv pairs (info tag, next achieved goal, new goal) injectively on the tag ranges used: the reward comparison of the
+   correspondence therefore distinguishes every wrong argument of compute_reward *)
+Theorem C16_reward_tag_injective : forall i a d i' a' d',
+  0 <= a < 512 -> 0 <= d < 512 -> 0 <= a' < 512 -> 0 <= d' < 512 ->
+  reward_tag i a d = reward_tag i' a' d' -> i = i' /\ a = a' /\ d = d'.
+Proof. exact reward_tag_injective. Qed.
+Print Assumptions C16_reward_tag_injective.
+
 (* ---- non-vacuity: capacity 5, one env; episodes of 3 and 4 steps (the second wraps the ring and
         overwrites the first), then 1 step of an unfinished third episode ---- *)
 Definition ex_in (t : Z) (d : bool) : hin := mkIn t (100 + t) 7 (t + 1) (101 + t) 7 t t d false 0.
@@ -183,4 +191,12 @@ Proof. split; reflexivity. Qed.
 
 (* a fresh buffer: np.zeros storage, nothing sampleable, ghost episode -1 = never written *)
 Example C16_ex_fresh : real_sample col0 3 = (0, 0, 0, 0, 0, 0, 0, 0, 0) /\ sl col0 3 = mkS 0 0 0 0 0 0 0 0 0 0 0 (-1) 0 false /\ valid col0 3 = false.
+Proof. repeat split; reflexivity. Qed.
+
+Example C16_ex_reward_tag : reward_tag 3 5 7 = 788999 /\ reward_tag 0 1 0 = 512 /\ reward_tag 1 0 0 = 262144.
+Proof. repeat split; reflexivity. Qed.
+(* a row shorter than n_envs is padded with the all-zero, not-done default column input (rows always have n_envs entries in the campaign) *)
+Example C16_ex_short_row :
+  let b := her_add (her_create 4 2 true) [mkIn 1 2 3 4 5 6 7 8 false false 9] in
+  real_sample (h_cols b 1%nat) 0 = (0, 0, 0, 0, 0, 0, 0, 0, 0) /\ cnt (h_cols b 1%nat) = 1 /\ cur (h_cols b 1%nat) = 0 /\ x_to (sl (h_cols b 1%nat) 0) = 0.
 Proof. repeat split; reflexivity. Qed.
